@@ -284,6 +284,17 @@ func c02staleSlotMatrix() []*Program {
 }
 
 func init() {
+	// a destructuring define that mixes new names with names already declared in the scope, after a closure captured the
+	// old variable (a define creates a fresh variable; the closure keeps the old one)
+	c02probes = append(c02probes,
+		"global L\nx := 1\nf := func() { return x }\ng := func() { x += 100; return x }\nL(g())\nx, y := [10, 20]\nL(f(), g(), x, y)\nx += 1000\nreturn [f(), x, y]",
+		"global L\nfns := []\nfor i := 0; i < 3; i++ {\n  v := i\n  fns = append(fns, func() { return v })\n  v, w := [v * 10, i]\n  fns = append(fns, func() { v++; return [v, w] })\n}\nout := []\nfor f in fns {\n  out = append(out, f())\n}\nreturn out",
+		"global L\nh := func(a) {\n  k := func() { return a }\n  a, b := [a + 1, a + 2]\n  m := func() { return [a, b] }\n  a = 50\n  return [k(), m()]\n}\nreturn [h(1), h(7)]",
+		"global L\nx := 1\nf := func() { return x }\nx := 2\ng := func() { return x }\nx = 3\nreturn [f(), g(), x]",
+	)
+}
+
+func init() {
 	// calls in tail position between DIFFERENT instances of one function literal (same code, different captured
 	// variables): chains of handlers, continuation passing, returned and discarded forms
 	c02probes = append(c02probes,
